@@ -1,5 +1,6 @@
 """C02 - count cube equals the brute-force contingency table."""
 import itertools
+import json
 
 import z3
 
@@ -36,6 +37,18 @@ def _patterns(keys, full, seed):
     step = max(1, len(rest) // 4)
     keep += rest[seed % step::step][:4]
     return keep
+
+
+def code_constants():
+    """Integer literals between 8 and 64 in ccubes.py (thresholds, block sizes); cf. harness/kernels.py."""
+    import ast, os
+    from symex import replay
+    try:
+        tree = ast.parse(open(os.path.join(replay.src_dir(), "ccubes.py")).read())
+    except Exception:
+        return []
+    return sorted({n.value for n in ast.walk(tree)
+                   if isinstance(n, ast.Constant) and isinstance(n.value, int) and not isinstance(n.value, bool) and 8 <= n.value <= 64})
 
 
 def configs(tier, seed):
@@ -81,6 +94,13 @@ def configs(tier, seed):
             for p in itertools.product((True, False), repeat=4):
                 out.append(dict(extras=[[], [], [], []], E=2, cap=1, commons=list(commons), fmt="nan", shape="explicit",
                                 present=[list(k) for k, x in zip(keys, p) if x]))
+    # skewed entry lengths derived from the integer constants in ccubes.py (a threshold on the ratio of two row-id arrays'
+    # lengths selects another intersection strategy): one entry of exactly c rows against one of a single row
+    for c in code_constants():
+        for order in (0, 1):
+            long_key, short_key = ([0, 1], [1, 1]) if order == 0 else ([1, 1], [0, 1])
+            out.append(dict(extras=[[], []], E=2, cap=1, commons=[0, 0], fmt="nan", shape="explicit", present=[[0, 1], [1, 1]],
+                            lens={json.dumps(long_key): c}, derived_from_constant=c))
     # D = 0
     out.append(dict(extras=[], E=1, cap=1, commons=[], fmt="nan", shape="explicit", present=[], zero_dim=True))
     return out
@@ -106,7 +126,8 @@ def explore(cfg, eng, ctx):
             for sub in itertools.product(*[range(e) for e in extras[d]]):
                 for v in range(E):
                     pres[(v,) + sub] = ((d, v) + sub) in present
-            ix, es = cubes.sym_dim(eng, C, "d%d" % d, N, range(E), commons[d], extra=extras[d], cap=cap, present=pres)
+            lens = {tuple(json.loads(k))[1:]: v for k, v in cfg.get("lens", {}).items() if json.loads(k)[0] == d} or None
+            ix, es = cubes.sym_dim(eng, C, "d%d" % d, N, range(E), commons[d], extra=extras[d], cap=cap, present=pres, lens=lens)
             dims.append(ix)
             ents.append(es)
         meta = [(extras[d], commons[d], ents[d]) for d in range(D)]
